@@ -8,6 +8,10 @@ use crate::{ctx::Ctx, gen::{instr_gen as g, vmstep::*}};
 
 const JUMPS: &[&str] = &["JI", "JNEI", "JNZI", "JMP", "JNE", "JMPF", "JMPB", "JNZF", "JNZB", "JNEF", "JNEB", "JAL"];
 /// opcodes that end the context or transfer control by other means (not "advancing")
+const ALU: &[&str] = &[
+    "ADD", "ADDI", "AND", "ANDI", "DIV", "DIVI", "EQ", "EXP", "EXPI", "GT", "LT", "MLOG", "MOD", "MODI", "MOVE", "MOVI",
+    "MROO", "MUL", "MULI", "MLDV", "NIOP", "NOOP", "NOT", "OR", "ORI", "SLL", "SLLI", "SRL", "SRLI", "SUB", "SUBI", "XOR", "XORI",
+];
 const TERMINAL: &[&str] = &["RET", "RETD", "RVRT", "CALL"];
 
 fn row(name: &str) -> &'static (u8, &'static str, &'static [u8]) {
@@ -217,6 +221,17 @@ fn run_program(ctx: &mut Ctx, vm: &mut Vm) {
     let steps = 40 + ctx.rng.below(40);
     ctx.count("program");
     for _ in 0..steps {
+        // an unaligned JAL target can make `$pc` point at a word that decodes to an opcode of another family
+        // (no Lean execution model in this stream): stop the trace there
+        {
+            let pc = regs[PC];
+            if pc >= regs[IS] && pc < regs[SSP] && pc.checked_add(4).map_or(false, |e| e <= stack_len) {
+                let byte_at = |a: u64| -> u8 { if a >= is && ((a - is) as usize) < bytes.len() { bytes[(a - is) as usize] } else { 0 } };
+                if let Some(r) = row_by_op(byte_at(pc)) {
+                    if !JUMPS.contains(&r.1) && !ALU.contains(&r.1) { ctx.count("prog.stop-other-family-opcode"); break; }
+                }
+            }
+        }
         let req = format!("p {} {} {}:{} {}", stack_len, VM_MAX_RAM, is, hexprog, fmt_regs(&regs));
         let before = regs;
         vm.registers_mut().copy_from_slice(&regs);
